@@ -57,6 +57,8 @@ def opName (op : String) : String := (op.splitOn ":").headD ""
 def opArg (op : String) : String := ((op.splitOn ":").drop 1).headD ""
 def parseIntArg (s : String) : Int := s.toInt?.getD 0
 def f64OfInt (i : Int) : UInt64 := (Float.ofInt i).toBits
+/-- `i · 2^-70` as f64 bits: amounts far below `f64::EPSILON` (the `…u` operations of the tiny-amount programs) -/
+def f64OfIntTiny (i : Int) : UInt64 := (Float.scaleB (Float.ofInt i) (-70)).toBits
 def u64OfInt (i : Int) : UInt64 := if i ≥ 0 then i.toNat.toUInt64 else (0 : UInt64) - (-i).toNat.toUInt64
 
 /-- generic per-thread call state -/
@@ -104,6 +106,8 @@ def floatDelta (op : String) : Option UInt64 :=
   | "inc" => some (f64OfInt 1) | "dec" => some (f64OfInt (-1))
   | "incby" | "add" | "lflush" => some (f64OfInt a)
   | "sub" => some (f64NegOp (f64OfInt a))
+  | "incbyu" | "addu" => some (f64OfIntTiny a)
+  | "subu" => some (f64NegOp (f64OfIntTiny a))
   | _ => none
 
 /-- the integer operand of an integer-flavour add / sub -/
